@@ -436,6 +436,67 @@ fn reduce_program(p: &Program, spec: &SemSpec, h: &[Op], prop: &str, budget: usi
     })
 }
 
+/// C15, static part: the API offers no way to make an enum element except through a
+/// constructor, and the compiler rejects rules that would make a non-constructor term of enum
+/// type defined. Returns the number of mutants tried.
+pub fn c15_static(p: &Program, module_text: &str) -> std::result::Result<usize, String> {
+    for t in 0..p.types.len() {
+        if !p.is_enum(t) {
+            continue;
+        }
+        let sn = snake(&p.types[t].name);
+        if module_text.contains(&format!("pub fn new_{}(&mut self, )", sn)) || module_text.contains(&format!("pub fn new_{}(&mut self)", sn)) {
+            return Err(format!("the API offers new_{}() without a constructor case", sn));
+        }
+        if !module_text.contains(&format!("pub fn new_{}(&mut self, value: ", sn)) {
+            return Err(format!("the API lacks new_{}(case)", sn));
+        }
+    }
+    let mut mutants = 0;
+    for r in 0..p.rels.len() {
+        let d = &p.rels[r];
+        if d.kind != RelKind::Func || !p.is_enum(d.result_type().unwrap()) {
+            continue;
+        }
+        if module_text.contains(&format!("pub fn define_{}(", snake(&d.name))) {
+            return Err(format!("the API offers define_{} although {} is not a constructor of its enum result type", snake(&d.name), d.name));
+        }
+        // mutants: a rule that makes f(args) defined
+        for named in [false, true] {
+            let mut q = p.clone();
+            let mut body: Vec<Stmt> = Vec::new();
+            let args: Vec<Term> = d.arg_types().iter().enumerate().map(|(i, _)| Term::Var(format!("v_{}", (b'a' + i as u8) as char))).collect();
+            for (i, &ty) in d.arg_types().iter().enumerate() {
+                body.push(Stmt::If(IfAtom::Typed(args[i].clone(), ty)));
+                // second occurrence is the use below
+            }
+            if named {
+                body.push(Stmt::Then(ThenAtom::Defined(Some("res".into()), Term::App(r, args.clone()))));
+                body.push(Stmt::Then(ThenAtom::Eq(Term::Var("res".into()), Term::Var("res".into()))));
+            } else {
+                body.push(Stmt::Then(ThenAtom::Defined(None, Term::App(r, args.clone()))));
+            }
+            q.rules.push(Rule { name: None, body });
+            q.order.push(DeclRef::Rule(q.rules.len() - 1));
+            let src = print::plain(&q);
+            let s = util::Scratch::new("c15m");
+            let sd = s.join("src");
+            std::fs::create_dir_all(&sd).unwrap();
+            std::fs::write(sd.join("thy.eql"), &src).unwrap();
+            let out = s.join("out");
+            let run = pipeline::run_cli(&pipeline::CliOpts { src: &sd, out: &out, component_out: None, rustc_path: None, threads: None, envs: vec![], cwd: None });
+            mutants += 1;
+            if run.accepted() {
+                return Err(format!("the compiler accepts a rule that makes the non-constructor term {}(..) of enum type {} defined:\n{}", d.name, p.types[d.result_type().unwrap()].name, src));
+            }
+            if run.crashed() {
+                return Err(format!("the compiler crashes on a rule that makes a non-constructor term of enum type defined (exit {:?})", run.out.code));
+            }
+        }
+    }
+    Ok(mutants)
+}
+
 pub struct CampaignResult {
     pub violations: usize,
     pub inconclusive: bool,
@@ -455,6 +516,8 @@ pub fn run_sem_campaign(prop: &'static str, tier: &str, seed: u64) -> CampaignRe
         sample: Option<serde_json::Value>,
         timed_out: bool,
         anomalies: Vec<String>,
+        static_mutants: usize,
+        static_finding: Option<String>,
     }
     let items: Vec<(&Program, &str)> = programs.iter().map(|pc| (&pc.program, pc.source.as_str())).collect();
     let builts = pipeline::build_all(&items, Mode::Module);
@@ -462,7 +525,7 @@ pub fn run_sem_campaign(prop: &'static str, tier: &str, seed: u64) -> CampaignRe
         .par_iter()
         .zip(builts.into_par_iter())
         .map(|(pc, built)| {
-            let mut pp = PerProgram { index: pc.index, build: Ok(()), findings: vec![], stats: vec![], sample: None, timed_out: false, anomalies: vec![] };
+            let mut pp = PerProgram { index: pc.index, build: Ok(()), findings: vec![], stats: vec![], sample: None, timed_out: false, anomalies: vec![], static_mutants: 0, static_finding: None };
             let rules = match flat::flatten_program(&pc.program) {
                 Ok(r) => r,
                 Err(e) => {
@@ -489,6 +552,12 @@ pub fn run_sem_campaign(prop: &'static str, tier: &str, seed: u64) -> CampaignRe
             let hs: Vec<Vec<Op>> = trees.iter().map(|t| t.current()).collect();
             let run = run_histories(&pc.program, &rules, &built.exe, &spec, &hs);
             pp.timed_out = run.timed_out;
+            if prop == "C15" {
+                match c15_static(&pc.program, &built.module_text) {
+                    Ok(n) => pp.static_mutants = n,
+                    Err(e) => pp.static_finding = Some(e),
+                }
+            }
             if let Some(c) = &run.crashed {
                 pp.anomalies.push(c.clone());
             }
@@ -587,6 +656,19 @@ pub fn run_sem_campaign(prop: &'static str, tier: &str, seed: u64) -> CampaignRe
         if let Some(s) = &pp.sample {
             ev.sample(s.clone(), 4);
         }
+        ev.count("c15_static_mutants_rejected", pp.static_mutants as u64);
+        if let Some(msg) = &pp.static_finding {
+            let rep = SemReplay { kind: "sem".into(), property: "C15".into(), profile: pc.profile.name.clone(), program: pc.program.clone(), source: pc.source.clone(), history: vec![], spec: spec.clone(), message: msg.clone(), script: String::new(), seed };
+            let sig = signature(&rep);
+            if let Some(k) = known.known("C15", &sig) {
+                println!("KNOWN-FINDING: property=C15 {}", k.what);
+            } else {
+                let path = evidence::write_replay("C15", "static", &serde_json::to_value(&rep).unwrap());
+                eprintln!("violation of C15 (static): {}", msg);
+                evidence::print_violation("C15", &path);
+                violations += 1;
+            }
+        }
         for (f, small, _) in &pp.findings {
             // program reduction (sequential; rare)
             let reduced = reduce_program(&pc.program, &spec, small, f.prop, 40);
@@ -676,6 +758,9 @@ pub fn signature(rep: &SemReplay) -> String {
 pub fn replay_sem(rep: &SemReplay) -> Result<Option<String>, String> {
     let rules = flat::flatten_program(&rep.program)?;
     let built = pipeline::build_driver(&rep.program, &rep.source, Mode::Module).map_err(|e| format!("{:?}", e))?;
+    if rep.property == "C15" && rep.history.is_empty() {
+        return Ok(c15_static(&rep.program, &built.module_text).err());
+    }
     let r = run_histories(&rep.program, &rules, &built.exe, &rep.spec, &[rep.history.clone()]);
     if r.timed_out {
         return Err("driver timed out".into());
